@@ -86,6 +86,9 @@ def _patches(data, layout, kind, nodata, nprng) -> None:
             data[yx + (slice(y0, y0 + h), slice(x0, x0 + w))] = v
 
 
+_SHARED_OPTS: dict = {}
+
+
 def build_array(cfg):
     from odc.geo.geobox import GeoBox
     from odc.geo.xr import wrap_xr
@@ -177,6 +180,9 @@ def run_config(mon: Monitor, cfg, workdir: str) -> None:
         kw["use_windowed_writes"] = True
     if cfg["intermediate"] is not False:
         kw["intermediate_compression"] = cfg["intermediate"]
+        if isinstance(cfg["intermediate"], dict):
+            # one options dict kept by the caller and passed to every write (a module-level constant in user code): the very same object each time
+            kw["intermediate_compression"] = _SHARED_OPTS.setdefault(repr(sorted(cfg["intermediate"].items())), dict(cfg["intermediate"]))
     if cfg["nodata"] is not None and cfg.get("nodata_via", "attrs") != "attrs":
         kw["nodata"] = cfg["nodata"]
     ext = None
@@ -221,6 +227,10 @@ def run_config(mon: Monitor, cfg, workdir: str) -> None:
             return to_cog(xx, overviews=ext, **kw) if ext else to_cog(xx, **kw)
         return write_cog(xx, fn_arg, overviews=ext, **kw) if ext else write_cog(xx, fn_arg, **kw)
 
+    import copy as _copy
+
+    kw_before = _copy.deepcopy(kw)
+    attrs_before = _copy.deepcopy(dict(xx.attrs))
     try:
         with FsAudit() as audit:
             if cfg.get("ambient_env"):
@@ -229,6 +239,12 @@ def run_config(mon: Monitor, cfg, workdir: str) -> None:
                     res, exc = call(go)
             else:
                 res, exc = call(go)
+        # keyword values and attributes stay the caller's: an options dict or a level list that comes back changed poisons the caller's next write
+        changed = [k for k in kw if kw[k] != kw_before[k]] + (["<DataArray.attrs>"] if dict(xx.attrs) != attrs_before else [])
+        mon.check(not changed, "arguments-unchanged", lambda: wit({"changed_arguments": changed, "now": {k: repr(kw.get(k))[:120] for k in changed}, "before": {k: repr(kw_before.get(k))[:120] for k in changed}}),
+                  key="caller-arguments-mutated", cls=cfg["api"])
+        if changed:
+            _SHARED_OPTS.clear()
         if cfg["existing"] == "no-overwrite":
             st = os.stat(fn) if os.path.exists(fn) else None
             after = (hashlib.sha1(open(fn, "rb").read()).hexdigest(), st.st_ino, st.st_mtime_ns) if st else None
